@@ -33,6 +33,7 @@ COMPONENTS = {
     "real": ["spsdk.sbfile.sb31.images.SecureBinary31 / SecureBinary31Header / SecureBinary31Commands", "spsdk.sbfile.sb31.commands (14 command classes)", "spsdk.sbfile.sb31.functions (KDF)", "spsdk.utils.crypto.cert_blocks.CertBlockV21", "spsdk.crypto.signature_provider.PlainFileSP", "McuBoot.receive_sb_file + protocol + device classes (as C10)"],
     "stub": ["ROM loader (independent model c05/rom31.py, validated on reference containers in golden/sb31)", "bootloader device and link (C10 models)", "clock"],
 }
+MEASURES = {"distinct_schedules": "distinct (key set, PCK size, rights, encryption, link configuration) signatures", "distinct_states": "not measured (0)", "sim_time_s": "simulated time incl. link deliveries and the clock offsets used for default timestamps"}
 ASSUMPTIONS = [
     "the ROM-loader model is written from the documented SB3.1 construction and must accept the reference containers under golden/sb31 before any run counts",
     "the device is provisioned with the RoT key hash of the root set, the PCK, the KDK access rights and whether containers are encrypted",
